@@ -1,0 +1,68 @@
+//go:build verif
+
+// Package verifhook holds the seams used by the deterministic simulator that
+// lives outside this repository. With the "verif" build tag the function
+// variables below are installed by the simulator; left nil they fall back to
+// the shipped behaviour.
+package verifhook
+
+import (
+	"context"
+	"net"
+)
+
+// Enabled reports whether the simulation hooks are compiled in.
+const Enabled = true
+
+var (
+	// DialFn replaces the engines' net.Dialer when set.
+	DialFn func(ctx context.Context, network, addr string) (net.Conn, error)
+	// YieldFn deschedules the calling goroutine at a named site when set.
+	YieldFn func(site string)
+	// PoolGetFn / PoolPutFn replace sync.Pool with a deterministic pool when set.
+	PoolGetFn func(pool any) (any, bool)
+	PoolPutFn func(pool any, v any) bool
+	// OrderFn returns the order in which map-derived lists are emitted when set.
+	OrderFn func(keys []string) []int
+)
+
+// Dial reports handled=false when no simulator is installed.
+func Dial(ctx context.Context, network, addr string) (net.Conn, bool, error) {
+	if DialFn == nil {
+		return nil, false, nil
+	}
+	c, err := DialFn(ctx, network, addr)
+	return c, true, err
+}
+
+// Yield deschedules the caller if a simulator is installed.
+func Yield(site string) {
+	if YieldFn != nil {
+		YieldFn(site)
+	}
+}
+
+// PoolGet returns a pooled object from the simulator's deterministic pool.
+// handled=false means the caller must fall back to its own behaviour.
+func PoolGet(pool any) (any, bool) {
+	if PoolGetFn == nil {
+		return nil, false
+	}
+	return PoolGetFn(pool)
+}
+
+// PoolPut hands an object to the simulator's deterministic pool.
+func PoolPut(pool any, v any) bool {
+	if PoolPutFn == nil {
+		return false
+	}
+	return PoolPutFn(pool, v)
+}
+
+// Order returns a permutation of indexes into keys, or nil to keep the order.
+func Order(keys []string) []int {
+	if OrderFn == nil {
+		return nil
+	}
+	return OrderFn(keys)
+}
